@@ -2,6 +2,7 @@ package checks
 
 import (
 	"fmt"
+	"math/bits"
 	"strings"
 
 	"verif/env"
@@ -310,6 +311,49 @@ func forgeAlphabet(cfg histCfg, w *World) []histAnswer {
 			padded = append(padded, 16)
 			padded[len(msg)+i] ^= 0x20
 			return wrap(s, true, true, s.HS.SIDM, ref.AESEncryptRaw(s.K2, s.NextIV(), padded), s.Integ)
+		}))
+	}
+	// pad length 16 with all sixteen bytes equal (the way other padding schemes
+	// fill a whole block)
+	for _, v := range []byte{0x00, 0x01, 0x0F, 0x10, 0x11, 0xFF} {
+		v := v
+		a = append(a, forgeAns(fmt.Sprintf("forged/bad-pad/pad16-all-bytes-%02x", v), false, func(t *env.Transport, rx *ref.Rx, s *ref.Session) []byte {
+			body := forgedBody(rx)
+			msg := ref.ResponseTo(rx.Msg, 0, body)
+			for len(msg)%16 != 15 {
+				body = append(body, 0x00)
+				msg = ref.ResponseTo(rx.Msg, 0, body)
+			}
+			padded := append([]byte{}, msg...)
+			for k := 1; k <= 16; k++ {
+				padded = append(padded, v)
+			}
+			padded = append(padded, 16)
+			return wrap(s, true, true, s.HS.SIDM, ref.AESEncryptRaw(s.K2, s.NextIV(), padded), s.Integ)
+		}))
+	}
+	// correctly signed and encrypted, but addressed to a session ID that is a
+	// rearrangement or a neighbour of the console's
+	for _, f := range []struct {
+		name string
+		id   func(s *ref.Session) uint32
+	}{
+		{"byte-reversed", func(s *ref.Session) uint32 { return bits.ReverseBytes32(s.HS.SIDM) }},
+		{"rotated-8", func(s *ref.Session) uint32 { return bits.RotateLeft32(s.HS.SIDM, 8) }},
+		{"rotated-16", func(s *ref.Session) uint32 { return bits.RotateLeft32(s.HS.SIDM, 16) }},
+		{"plus-1", func(s *ref.Session) uint32 { return s.HS.SIDM + 1 }},
+		{"minus-1", func(s *ref.Session) uint32 { return s.HS.SIDM - 1 }},
+		{"top-bit", func(s *ref.Session) uint32 { return s.HS.SIDM ^ 0x80000000 }},
+		{"all-ones", func(s *ref.Session) uint32 { return 0xFFFFFFFF }},
+		{"the-bmc-id", func(s *ref.Session) uint32 { return s.HS.SIDC }},
+	} {
+		f := f
+		a = append(a, forgeAns("forged/signed-for-session-id-"+f.name, false, func(t *env.Transport, rx *ref.Rx, s *ref.Session) []byte {
+			id := f.id(s)
+			if id == s.HS.SIDM {
+				id ^= 0x00000100 // (the BMC's ID may equal the console's)
+			}
+			return wrap(s, true, true, id, encrypt(s, forgedMsg(rx)), s.Integ)
 		}))
 	}
 	// authentic datagram damaged in transit: every single bit, every truncation
